@@ -32,12 +32,13 @@ func init() {
 	register(&Check{
 		ID:  "C12",
 		Run: runC12,
-		Explanation: "Decides the finite tables and first-write shape of the string/name codecs: (R1) Escape's byte->letter table and escaped's letter->byte table are mutually inverse on {LF<->n, CR<->r, TAB<->t, BS<->b, FF<->f}; Escape treats backslash and both parentheses as special; for every special byte the first thing written after the match is a backslash, unconditionally (no pass-through of pre-escaped sequences), and for non-special bytes exactly the byte itself; escaped passes '(' and ')' through; (R2) name encoding: EncodeName writes '#' followed by a two-digit hex rendering of exactly one byte (encoding/hex on a 1-byte slice, or a %02x format) for every byte needsHexSequence selects (delimiter set as in C11.R3) and DecodeName consumes exactly two characters after '#' (slice s[i+1:i+3], i += 2); (R3 byte exactness) Escape, Unescape, escaped, EncodeName and DecodeName never write an integer to their output as a string or rune (WriteRune / WriteString(string(int)) is UTF-8 encoding: a byte >= 0x80 would become two bytes), and every non-nil result of Unescape is its accumulation buffer's Bytes() without a further call that could drop or rewrite bytes depending on the content (Unescape also decodes binary strings). (R4) in EncodeName every path from needsHexSequence(ch) == true to the next byte's test or to a return writes the '#' form: the escape decision is a function of the byte alone (a look-ahead or 'already encoded' exception makes two names share one encoding). NOT decided: octal sequences, CR/LF interactions in Escape, UTF-16 (C13), the quantified round trip.",
+		Explanation: "Decides the finite tables and first-write shape of the string/name codecs: (R1) Escape's byte->letter table and escaped's letter->byte table are mutually inverse on {LF<->n, CR<->r, TAB<->t, BS<->b, FF<->f}; Escape treats backslash and both parentheses as special; for every special byte the first thing written after the match is a backslash, unconditionally (no pass-through of pre-escaped sequences), and for non-special bytes exactly the byte itself; escaped passes '(' and ')' through; (R2) name encoding: EncodeName writes '#' followed by a two-digit hex rendering of exactly one byte (encoding/hex on a 1-byte slice, or a %02x format) for every byte needsHexSequence selects (delimiter set as in C11.R3) and DecodeName consumes exactly two characters after '#' (slice s[i+1:i+3], i += 2); (R3 byte exactness) Escape, Unescape, escaped, EncodeName and DecodeName never write an integer to their output as a string or rune (WriteRune / WriteString(string(int)) is UTF-8 encoding: a byte >= 0x80 would become two bytes), and every non-nil result of Unescape is its accumulation buffer's Bytes() without a further call that could drop or rewrite bytes depending on the content (Unescape also decodes binary strings). (R4) in EncodeName every path from needsHexSequence(ch) == true to the next byte's test or to a return writes the '#' form: the escape decision is a function of the byte alone (a look-ahead or 'already encoded' exception makes two names share one encoding). (R5) in Unescape every byte written while the escape flag may be set is followed, before the next byte is read, by an assignment of the flag (an escape sequence that has produced its byte is over). NOT decided: octal sequence values, CR/LF interactions in Escape, UTF-16 (C13), the quantified round trip.",
 		Rules: []string{
 			"C12.R1 TABLE agreement: Escape vs escaped; backslash-first shape",
 			"C12.R2 TABLE/shape: EncodeName two-digit hex, DecodeName consumes two digits",
 			"C12.R3 byte exactness: no integer->string conversions in the codecs; Unescape returns its buffer unprocessed",
 			"C12.R4 MPT: a byte needsHexSequence reports is always written in '#' form (decision per byte)",
+			"C12.R5 MPT (go/cfg): in Unescape a byte written inside an escape sequence is followed by an assignment of the escape flag before the next byte",
 		},
 		Assumptions: []string{"encoding/hex renders one byte as two digits"},
 		Technique:   "switch-table extraction from SSA comparison chains and phi edges; first-write path exploration from the match edge; callee/format classification",
@@ -503,6 +504,8 @@ func runC12(c *Ctx) {
 	checkNameDelimiters(c, "C12.R2")
 	r.MinInst["C12.R4"] = 1
 	checkNameEscapeDecision(c, "C12.R4")
+	r.MinInst["C12.R5"] = 1
+	checkEscapeStateReset(c, "C12.R5")
 	r.MinInst["C12.R3"] = 5
 	checkByteExactCodecs(c)
 	if fn := p.Func("pkg/pdfcpu/types.EncodeName"); fn == nil {
